@@ -380,6 +380,14 @@ func runC05(c *rt.Ctx) {
 		})
 		uu.Formatter = oldF
 	}
+	{ // call histories: valid texts colliding under weak checksums, parsed back to back
+		r := rt.NewRand(c.Seed, "C05/collide", 0)
+		texts := make([]string, 0, 1500000)
+		for i := 0; i < 1500000; i++ {
+			texts = append(texts, ref.UUIDText(r.U64(), r.U64()))
+		}
+		collisionHistories(c, texts, 300, 200, func(w *rt.W, t string) { c05Parse(w, t, 0, true) })
+	}
 	c.Exhaustive("all 6 pairs of separator positions x all 65,536 byte pairs on one valid text")
 	c.Require("separator-pair-substitution", 390000)
 	c.Require("single-byte-substitution", 100000)
